@@ -583,4 +583,51 @@ theorem snodeDfs_main {jcol kcol : Nat} {asub xaB xaE : Array Nat} {marker : Arr
       rw [e3, getD_setIfInBounds, if_neg (by have := h.le; omega)]
     · intro r hr; show o.marker.getD _ _ = _ ↔ _; rw [e1]; exact inv.mark r hr
     · intro r hr; show o.marker.getD _ _ = _; rw [e1]; exact inv.mark_else r hr
+
+/-! ### dpruneL.c: one representative -/
+
+/-- `movnum`: the supernode of `irep` has a single column (`irep == xsup[supno[irep]]`, dpruneL.c:114) -/
+def movnumOf (a : PruneArgs) (irep : Nat) : Bool := a.xsup.getD (a.supno.getD irep 0).toNat 0 == irep
+
+/-- decidable well-formedness of one representative: its segment lies inside `lsub`, its values inside `lusup` -/
+structure PruneWf (a : PruneArgs) (lsubSize lusupSize xpruneSize irep : Nat) : Prop where
+  mono : a.xlsub.getD irep 0 ≤ a.xlsub.getD (irep+1) 0
+  inb : a.xlsub.getD (irep+1) 0 ≤ lsubSize
+  xp : irep < xpruneSize
+  lu : movnumOf a irep = true → a.xlusup.getD irep 0 + (a.xlsub.getD (irep+1) 0 - a.xlsub.getD irep 0) ≤ lusupSize
+
+instance (a : PruneArgs) (s1 s2 s3 irep : Nat) : Decidable (PruneWf a s1 s2 s3 irep) :=
+  decidable_of_iff (a.xlsub.getD irep 0 ≤ a.xlsub.getD (irep+1) 0 ∧ a.xlsub.getD (irep+1) 0 ≤ s1 ∧ irep < s3 ∧
+      (movnumOf a irep = true → a.xlusup.getD irep 0 + (a.xlsub.getD (irep+1) 0 - a.xlsub.getD irep 0) ≤ s2))
+    ⟨fun ⟨a, b, c, d⟩ => ⟨a, b, c, d⟩, fun ⟨a, b, c, d⟩ => ⟨a, b, c, d⟩⟩
+
+/-- does this turn of the loop partition `irep`'s list -/
+def prunes {K : Type} (a : PruneArgs) (st : PruneSt K) (irep : Nat) : Bool :=
+  eligible a irep && doPrune a st.lsub st.xprune irep
+
+theorem pruneStep_eq {K : Type} (z : K) (a : PruneArgs) (st : PruneSt K) (i : Nat) :
+    pruneStep z a st i = if prunes a st (a.segrep.getD i 0) then pruneOne z a st (a.segrep.getD i 0) else st := by
+  unfold pruneStep prunes
+  dsimp only
+  generalize a.segrep.getD i 0 = irep
+  cases eligible a irep <;> cases doPrune a st.lsub st.xprune irep <;> rfl
+
+theorem pruneOne_ok {K : Type} (z : K) (a : PruneArgs) (st : PruneSt K) (irep : Nat)
+    (h : PruneWf a st.lsub.size st.lusup.size st.xprune.size irep) :
+    PartOk z a.permR (movnumOf a irep) (a.xlusup.getD irep 0) (a.xlsub.getD irep 0) (a.xlsub.getD irep 0) (a.xlsub.getD (irep+1) 0)
+      st.lsub st.lusup ((pruneOne z a st irep).xprune.getD irep 0, (pruneOne z a st irep).lsub, (pruneOne z a st irep).lusup) ∧
+    (pruneOne z a st irep).xprune.size = st.xprune.size ∧
+    ∀ j, j ≠ irep → (pruneOne z a st irep).xprune.getD j 0 = st.xprune.getD j 0 := by
+  have hok := partLoop_ok z a.permR (movnumOf a irep) (a.xlusup.getD irep 0) (a.xlsub.getD irep 0)
+    (a.xlsub.getD (irep+1) 0 - a.xlsub.getD irep 0) (a.xlsub.getD irep 0) (a.xlsub.getD (irep+1) 0) st.lsub st.lusup
+    (le_refl _) (le_refl _) h.mono h.inb (fun hm => by have := h.lu hm; omega)
+  refine ⟨?_, by simp [pruneOne], ?_⟩
+  · have e : (pruneOne z a st irep).xprune.getD irep 0 = (partLoop z a.permR (movnumOf a irep) (a.xlusup.getD irep 0) (a.xlsub.getD irep 0)
+        (a.xlsub.getD (irep+1) 0 - a.xlsub.getD irep 0) (a.xlsub.getD irep 0) (a.xlsub.getD (irep+1) 0) st.lsub st.lusup).1 := by
+      show (st.xprune.setIfInBounds irep _).getD irep 0 = _
+      rw [getD_setIfInBounds, if_pos ⟨rfl, h.xp⟩]; rfl
+    rw [e]; exact hok
+  · intro j hj
+    show (st.xprune.setIfInBounds irep _).getD j 0 = _
+    rw [getD_setIfInBounds, if_neg (fun hh => hj hh.1.symm)]
 end Slu.SymbArr
